@@ -1,7 +1,10 @@
 -- all property theorem files (imported by the axiom audit and the default build target)
 import CoolerModel.Props.C20
+import CoolerModel.Props.C04
 import CoolerModel.Props.C15
 import CoolerModel.Props.C03
+import CoolerModel.Props.C06
+import CoolerModel.Props.C07
 import CoolerModel.Props.C01
 import CoolerModel.Props.C02
 import CoolerModel.Props.C12
@@ -10,3 +13,6 @@ import CoolerModel.Props.C18
 import CoolerModel.Props.C14
 import CoolerModel.Props.C10
 import CoolerModel.Props.C11
+import CoolerModel.Props.C13
+import CoolerModel.Props.C17
+import CoolerModel.Props.C05
